@@ -76,6 +76,8 @@ EXC_MAP = {
     "ValueError": "valueError", "OverflowError": "overflowError", "ZeroDivisionError": "zeroDivision",
     "IndexError": "indexError", "KeyError": "keyError", "RuntimeError": "runtimeError", "TypeError": "typeError",
     "NotImplementedError": "notImplemented",
+    # pyoda_time's own exceptions that the model distinguishes (PyExc.skippedTime / ambiguousTime)
+    "SkippedTimeError": "skippedTime", "AmbiguousTimeError": "ambiguousTime",
 }
 LEAN_KEYWORDS = {
     "at", "end", "from", "do", "then", "else", "if", "let", "fun", "in", "match", "with", "where", "open", "local",
@@ -625,6 +627,8 @@ class Target:
         #   a result type written "R T" makes the callee a raising one (Except PyExc T)
         self.fun_params = [(f[0], [parse_type(x) for x in f[1]], parse_type(f[2][2:] if f[2].startswith("R ") else f[2]), f[3]) for f in d.get("fun_params", [])]
         self.fun_raises = {f[3]: f[2].startswith("R ") for f in d.get("fun_params", [])}
+        # optional fifth element: the Python parameter names of the abstract callee, so that it can be called with keywords
+        self.fun_kwnames = {f[3]: f[4] for f in d.get("fun_params", []) if len(f) > 4}
         self.loop_fuel = d.get("loop_fuel")  # fuel of the fuel-recursive functions that `while` loops become (required when there is one)
         # Lean parameters that stand for instance attributes of an erased self (see self_attrs "param:<name>")
         self.extra_params = [(p[0], parse_type(p[1])) for p in d.get("extra_params", [])]
@@ -947,6 +951,8 @@ class FnTranslator:
     def ir_raises(self, ir) -> bool:
         for n in ir:
             k = n[0]
+            if k == "optmatch" and (self.ir_raises(n[3]) or self.ir_raises(n[4])):
+                return True
             if k in ("raise", "bind", "tail", "optret"):
                 return True  # (a loop call is a "bind": running out of fuel is an error value)
             if k == "if" and (self.ir_raises(n[2]) or self.ir_raises(n[3])):
@@ -973,6 +979,45 @@ class FnTranslator:
             if isinstance(st, ast.AnnAssign) and st.value is None:
                 i += 1
                 continue
+            if isinstance(st, (ast.Return, ast.Assign, ast.AnnAssign, ast.Expr)) and isinstance(getattr(st, "value", None), ast.Call):
+                # `f(A if c else B, x)` with a raising call inside A or B:  `t = A if c else B; f(t, x)` — the same order of
+                # evaluation provided everything evaluated before that argument (the callee expression, the earlier
+                # arguments) is a plain name / attribute chain / literal
+                call_ = st.value
+                in_order = list(call_.args) + [k.value for k in call_.keywords]
+                hoisted = False
+                for j_, a_ in enumerate(in_order):
+                    if isinstance(a_, ast.IfExp) and self.needs_statement_form(a_, ctx):
+                        if not (all(self.is_pure_simple(x) for x in in_order[:j_]) and self.is_pure_simple(call_.func)):
+                            self.bad(a_, "conditional argument with a raising call after an argument that is not a simple name/attribute")
+                        self.ifexp_count = getattr(self, "ifexp_count", 0) + 1
+                        tname = f"cond_arg_{self.ifexp_count}_"
+                        if tname in self.local_names:
+                            self.bad(a_, "name clash with the translator's temporary")
+                        self.assigned_names.add(tname)
+                        self.local_names.add(tname)
+                        mk_ = lambda n_: ast.copy_location(n_, st)  # noqa: E731
+                        assign_ = mk_(ast.Assign(targets=[mk_(ast.Name(id=tname, ctx=ast.Store()))], value=a_))
+                        repl_ = mk_(ast.Name(id=tname, ctx=ast.Load()))
+                        new_args = [repl_ if x is a_ else x for x in call_.args]
+                        new_kws = [ast.keyword(arg=k.arg, value=(repl_ if k.value is a_ else k.value)) for k in call_.keywords]
+                        new_call = mk_(ast.Call(func=call_.func, args=new_args, keywords=new_kws))
+                        if isinstance(st, ast.Return):
+                            st2 = mk_(ast.Return(value=new_call))
+                        elif isinstance(st, ast.Expr):
+                            st2 = mk_(ast.Expr(value=new_call))
+                        elif isinstance(st, ast.AnnAssign):
+                            st2 = mk_(ast.AnnAssign(target=st.target, annotation=st.annotation, value=new_call, simple=st.simple))
+                        else:
+                            st2 = mk_(ast.Assign(targets=st.targets, value=new_call))
+                        for n_ in (assign_, st2):
+                            ast.fix_missing_locations(n_)
+                        stmts = [assign_, st2] + rest
+                        i = 0
+                        hoisted = True
+                        break
+                if hoisted:
+                    continue
             if isinstance(st, (ast.Return, ast.Assign, ast.AnnAssign)) and isinstance(st.value, ast.IfExp) and self.needs_statement_form(st.value, ctx):
                 # `return A if c else B`  ==  `if c: return A / else: return B` (same for a plain assignment)
                 ie = st.value
@@ -1037,6 +1082,36 @@ class FnTranslator:
                     self.bad(st, f"noreturn helper with unknown exception {nr}")
                 out.append(("raise", nr))
                 return out
+            if isinstance(st, ast.If) and isinstance(st.test, ast.NamedExpr) and isinstance(st.test.value, ast.Call):
+                # `if (x := f(...)):` where f returns `T | None` and T defines neither __bool__ nor __len__: the test is
+                # `x is not None`; x is a T in the body and None afterwards on the other path
+                pre_ = []
+                kind_, txt_, ty_ = self.call(st.test.value, ctx, pre_, want_raw=True)
+                if isinstance(ty_, str) and ty_.startswith("?") and ty_[1:] in self.g.types:
+                    inner = ty_[1:]
+                    self.require_plain_truthiness(st.test, inner)
+                    nm = st.test.target.id
+                    tv = self.fresh("o")
+                    out.extend(pre_)
+                    out.append(("bind" if kind_ == "raising" else "let", tv, txt_, ty_))
+                    c1, c2 = ctx.copy(), ctx.copy()
+                    c1.bind(nm, inner)
+                    c2.vars[nm] = "None"
+                    b1 = self.block(list(st.body) + rest, c1)
+                    b2 = self.block(list(st.orelse) + rest, c2)
+                    out.append(("optmatch", tv, lname(nm), b1, b2))
+                    return out
+            if isinstance(st, ast.If) and isinstance(st.test, ast.Compare) and len(st.test.ops) > 1 and self.needs_statement_form(st.test, ctx):
+                # a raising call in a later link of a chained comparison: `a < b <= c` == `a < b and b <= c` (b simple)
+                v = st.test
+                operands = [v.left] + list(v.comparators)
+                for mid in operands[1:-1]:
+                    if not self.is_pure_simple(mid):
+                        self.bad(v, "chained comparison with a raising call whose middle operand is not a simple name/attribute")
+                links = [ast.copy_location(ast.Compare(left=operands[k], ops=[v.ops[k]], comparators=[operands[k + 1]]), v) for k in range(len(v.ops))]
+                stmts = [ast.copy_location(ast.If(test=ast.copy_location(ast.BoolOp(op=ast.And(), values=links), v), body=st.body, orelse=st.orelse), st)] + rest
+                i = 0
+                continue
             if isinstance(st, ast.If) and isinstance(st.test, ast.BoolOp) and self.needs_statement_form(st.test, ctx):
                 # a raising call in a later operand of the test:
                 #   `if A and B: X else: Y`  ==  `if A: (if B: X else: Y) else: Y`
@@ -1143,6 +1218,13 @@ class FnTranslator:
             if isinstance(n, ast.Name) and isinstance(n.ctx, ast.Store):
                 order.setdefault(n.id, (n.lineno, n.col_offset))
         carried.sort(key=lambda x: order[x])
+        # a name first bound inside the body and never mentioned after the loop is local to one iteration (every path of
+        # the body must assign it before reading it: a read before the assignment is refused as usual)
+        body_ids = set(id(n) for n in ast.walk(st))
+        def used_after(v):
+            return any(isinstance(n, ast.Name) and n.id == v and id(n) not in body_ids
+                       and (n.lineno, n.col_offset) > (st.end_lineno, st.end_col_offset) for n in ast.walk(self.node))
+        carried = [v for v in carried if v in ctx.vars or v in ctx.constructing or used_after(v)]
         if not carried:
             self.bad(st, "while loop that assigns nothing")
         for v in carried:
@@ -1268,6 +1350,23 @@ class FnTranslator:
         call = " ".join([self.ref(lp["name"])] + [n for n, _, _, _ in t.fun_params] + [lname(n) for n, _ in t.extra_params]
                         + [lname(v) for v, _ in lp["free"]] + ["fuel'"] + [lname(v) for v, _ in lp["carried"]])
         return [("tail", call, lp["type"])]
+
+    def require_plain_truthiness(self, node, ty: str):
+        """an object of the class behind type `ty` is truthy (its class defines neither __bool__ nor __len__)"""
+        pyc = self.g.types[ty].get("py_class", ty)
+        r = self.src.lookup_global(self.file, pyc, self.local_imports)
+        if not r or r[0] != "class":
+            self.bad(node, f"truthiness of a {pyc}: its class cannot be found from this file")
+        todo, seen = [(r[1], r[2])], set()
+        while todo:
+            rel, cls = todo.pop()
+            if (rel, cls.name) in seen:
+                continue
+            seen.add((rel, cls.name))
+            for st_ in cls.body:
+                if isinstance(st_, ast.FunctionDef) and st_.name in ("__bool__", "__len__"):
+                    self.bad(node, f"truthiness of a {pyc}, whose class defines {st_.name}")
+            todo.extend(self.src.class_bases(rel, cls))
 
     def is_pure_simple(self, e) -> bool:
         """a name, literal or attribute chain on a name: evaluating it twice is evaluating it once"""
@@ -1418,7 +1517,7 @@ class FnTranslator:
         v = getattr(st, "value", None)
         if isinstance(st, ast.Expr) and isinstance(v, ast.Call):
             h = self.g.helpers.get(ast.unparse(v.func))
-            if h and h.get("noreturn"):
+            if isinstance(h, dict) and h.get("noreturn"):
                 return h["noreturn"]
         return None
 
@@ -1646,6 +1745,15 @@ class FnTranslator:
         return (declared(l) and enum_const(r)) or (declared(r) and enum_const(l))
 
     def type_of_simple(self, e, ctx: Ctx):
+        if isinstance(e, ast.Attribute) and isinstance(e.value, ast.Name) and e.value.id in ("self", "cls") \
+                and ctx.vars.get(e.value.id, "Erased") == "Erased":
+            v = self.t.self_attrs.get(e.attr)
+            if v == "none":
+                return "None"       # the target specialises this attribute to None
+            if v == "object":
+                return "Object"     # … or to "some object" (only `is None` tests and abstract callees may touch it)
+            if isinstance(v, str) and v.startswith("param:"):
+                return dict(self.t.params + self.t.extra_params).get(v[6:])
         if isinstance(e, ast.Name):
             if e.id in ctx.vars:
                 return ctx.vars[e.id]
@@ -1809,6 +1917,24 @@ class FnTranslator:
 
     def subscript(self, e: ast.Subscript, ctx, pre, cond):
         """constant int table indexed by an int expression -> bounds-checked lookup (raises IndexError)."""
+        vt = None
+        if isinstance(e.value, (ast.Name, ast.Attribute)):
+            try:
+                saved_ = self.tmp
+                vtxt, vt = self.expr(e.value, ctx.copy(), [], cond=True)
+                self.tmp = saved_
+            except Unsupported:
+                vt = None
+        if vt in self.g.types and self.g.types[vt].get("list_of"):
+            # a Python list of objects carried as an array: IndexError outside, a negative index counts from the end
+            if cond:
+                self.bad(e, "list lookup in a conditionally evaluated position")
+            idx, ty = self.expr(e.slice, ctx, pre, cond)
+            if ty != "Int":
+                self.bad(e, "list index that is not an int")
+            tv = self.fresh("e")
+            pre.append(("bind", tv, f"Pyoda.Gen.pyListIndex {self.paren(vtxt)} {self.paren(idx)}", self.g.types[vt]["list_of"]))
+            return tv, self.g.types[vt]["list_of"]
         st_ = self.t.dstate
         if st_ and ast.unparse(e.value) == st_["attr"]:
             # a lookup in the dict attribute carried as a parameter: KeyError for a missing key
@@ -1838,7 +1964,16 @@ class FnTranslator:
         self.t.consts[ast.unparse(e.value)] = tbl
         tv = self.fresh("e")
         fn = "Pyoda.Gen.pyDictIndex" if isinstance(tbl, DictTable) else "Pyoda.Gen.pyIndex"
-        pre.append(("bind", tv, f"{fn} [{', '.join(str(x) for x in tbl)}] {idx}", "Int"))
+        lit = f"[{', '.join(str(x) for x in tbl)}]"
+        if len(tbl) > 64:
+            # a long table becomes a named definition next to the function (the agreement proofs refer to it by name)
+            tabs = self.t.__dict__.setdefault("tables", [])
+            name = next((n for n, l in tabs if l == lit), None)
+            if name is None:
+                name = f"{self.t.lean_name}.tbl{len(tabs) + 1}"
+                tabs.append((name, lit))
+            lit = self.ref(name)
+        pre.append(("bind", tv, f"{fn} {lit} {idx}", "Int"))
         return tv, "Int"
 
     def table_is_mutated(self, attr: str) -> bool:
@@ -1899,6 +2034,11 @@ class FnTranslator:
                 self.record_const(e, v)
                 return self.lit(v), ("Bool" if isinstance(v, bool) else "Int")
             self.bad(e, f"attribute {ast.unparse(e)} is neither a bound attribute nor a class-level int constant")
+        # a hand-mapped class-level value (e.g. `Duration.epsilon`): a helper without parameters
+        if isinstance(base, ast.Name) and base.id not in ctx.vars and base.id not in ctx.constructing:
+            hv = g.helpers.get(ast.unparse(e))
+            if isinstance(hv, dict) and not hv["py_params"]:
+                return self.helper_call(e, hv, [], {}, ctx, pre, cond, want_raw=False)[1:]
         # class constant via a class name
         if isinstance(base, ast.Name) and base.id not in ctx.vars:
             v = self.const_of(e, ctx)
@@ -2132,10 +2272,29 @@ class FnTranslator:
         dotted = ast.unparse(f)
         for fname, ats, rt, fd in self.t.fun_params:
             if fd == dotted:
-                if e.keywords or len(e.args) != len(ats):
+                call_args = list(e.args)
+                if e.keywords:
+                    names = self.t.fun_kwnames.get(fd)
+                    if not names or len(names) != len(ats):
+                        self.bad(e, f"call of the abstract callee {dotted} with keywords (the target gives no parameter names)")
+                    given = dict(zip(names, e.args))
+                    for k in e.keywords:
+                        if k.arg not in names or k.arg in given:
+                            self.bad(e, f"keyword {k.arg} of the abstract callee {dotted}")
+                        given[k.arg] = k.value
+                    if len(given) != len(names):
+                        self.bad(e, f"call of the abstract callee {dotted}: missing argument")
+                    # evaluation order is the order of writing: positional arguments, then keywords as written
+                    order = list(e.args) + [k.value for k in e.keywords]
+                    if order != [given[n] for n in names]:
+                        for a in order:
+                            if not self.is_pure_simple(a) and any(isinstance(n, ast.Call) for n in ast.walk(a)):
+                                self.bad(e, f"keywords of {dotted} out of parameter order with a call among the arguments")
+                    call_args = [given[n] for n in names]
+                if len(call_args) != len(ats):
                     self.bad(e, f"call of the abstract callee {dotted}: arity/keywords")
                 parts = []
-                for a, want in zip(e.args, ats):
+                for a, want in zip(call_args, ats):
                     txt, ty = self.expr(a, ctx, pre, cond)
                     if ty != want:
                         self.bad(e, f"argument of {dotted} has type {ty}, expected {want}")
@@ -2153,8 +2312,7 @@ class FnTranslator:
                 self.bad(e, f"binds entry {dotted} -> {name}: no such target")
             return self.finish_call(e, tg, e.args, e.keywords, ctx, pre, cond, want_raw)
         if dotted in g.helpers:
-            args = [self.arg_or_str(a, ctx, pre, cond) for a in e.args]
-            kw = {k.arg: self.arg_or_str(k.value, ctx, pre, cond) for k in e.keywords}
+            args, kw = self.helper_args(e, g.helpers[dotted], 0, ctx, pre, cond)
             return self.helper_call(e, g.helpers[dotted], args, kw, ctx, pre, cond, want_raw)
         if isinstance(f, ast.Name):
             if f.id in ("min", "max") and len(e.args) == 2 and not e.keywords:
@@ -2169,6 +2327,8 @@ class FnTranslator:
                 return "pure", f"(if {a} < 0 then -{a} else {a})", "Int"
             if f.id == "len" and len(e.args) == 1 and not e.keywords:
                 a, ta = self.expr(e.args[0], ctx, pre, cond)
+                if ta in g.types and g.types[ta].get("list_of"):
+                    return "pure", f"(({self.paren(a)}.size : Nat) : Int)", "Int"   # a Python list: its length
                 if ta not in g.types:
                     self.bad(e, f"len() of a value of type {ta}")
                 txt, ty = self.operator_call(e, ta, "__len__", [(a, ta)], ctx, pre, cond)
@@ -2176,6 +2336,12 @@ class FnTranslator:
                     self.bad(e, "__len__ does not return Int")
                 # the builtin checks the value __len__ returned: ValueError if negative, OverflowError above sys.maxsize
                 return self.deliver(e, f"Pyoda.Gen.pyLen {self.paren(txt)}", "Int", True, pre, cond, want_raw)
+            if f.id == "cast" and len(e.args) == 2 and not e.keywords:
+                g_ = g.src.lookup_global(self.file, "cast", self.local_imports)
+                imps_ = g.src.imports_of(g.src.module(self.file).body)
+                if g_ is None and imps_.get("cast", (0, None, None))[1] == "typing":
+                    return ("pure",) + self.expr(e.args[1], ctx, pre, cond)   # typing.cast returns its second argument
+                self.bad(e, "call of cast (not typing.cast)")
             if f.id == "int" and len(e.args) == 1 and not e.keywords:
                 a, ta = self.expr(e.args[0], ctx, pre, cond)
                 if ta != "Int":
@@ -2218,8 +2384,7 @@ class FnTranslator:
             if clsname is not None:
                 hk = f"{clsname}.{f.attr}"
                 if hk in g.helpers:
-                    args = [self.arg_or_str(a, ctx, pre, cond) for a in e.args]
-                    kw = {k.arg: self.arg_or_str(k.value, ctx, pre, cond) for k in e.keywords}
+                    args, kw = self.helper_args(e, g.helpers[hk], 0, ctx, pre, cond)
                     return self.helper_call(e, g.helpers[hk], args, kw, ctx, pre, cond, want_raw)
                 tg = self.find_targets(clsname, f.attr)
                 if not tg:
@@ -2235,6 +2400,14 @@ class FnTranslator:
                     kw = {k.arg: self.arg_or_str(k.value, ctx, pre, cond) for k in e.keywords}
                     return self.helper_call(e, g.helpers[hk], args, kw, ctx, pre, cond, want_raw)
                 meth = g.types[oty].get("methods", {}).get(f.attr)
+                if isinstance(meth, list):
+                    # overloads of one virtual member (e.g. `_get_year_month_day(year=, day_of_year=)` and
+                    # `_get_year_month_day(days_since_epoch=)`): the one whose parameter names fit the call
+                    kws = [k.arg for k in e.keywords]
+                    fits = [m_ for m_ in meth if len(e.args) + len(kws) == len(m_["py_params"]) and all(k in m_["py_params"][len(e.args):] for k in kws)]
+                    if len(fits) != 1:
+                        self.bad(e, f"call of the overloaded method {f.attr}: {len(fits)} overloads fit")
+                    meth = fits[0]
                 if meth is not None:
                     return self.method_field_call(e, obj, oty, f.attr, meth, ctx, pre, cond, want_raw)
                 tg = self.find_targets(pyc, f.attr)
@@ -2273,6 +2446,24 @@ class FnTranslator:
         txt = " ".join([f"{self.paren(obj)}.{m['field']}"] + parts)
         return self.deliver(e, txt, parse_type(m["ret"]), bool(m.get("raises")), pre, cond, want_raw)
 
+    def helper_args(self, e, h, skip: int, ctx, pre, cond):
+        """Evaluate the arguments of a helper call.  A parameter the helper does not pass on to Lean (a name for an error
+        message, the zone and date-time a mapping merely stores, …) is not evaluated; it must be effect-free."""
+        if isinstance(h, list):
+            return ([self.arg_or_str(a, ctx, pre, cond) for a in e.args],
+                    {k.arg: self.arg_or_str(k.value, ctx, pre, cond) for k in e.keywords})
+        pyp = h["py_params"][skip:]
+        passed = set(h["pass"])
+        def ev(name, a):
+            if name is not None and name not in passed:
+                if not (self.is_pure_simple(a) or isinstance(a, ast.JoinedStr)):
+                    self.bad(e, f"argument {name} (not passed to the model) is not a plain name / literal")
+                return ("", "Str")
+            return self.arg_or_str(a, ctx, pre, cond)
+        args = [ev(pyp[k] if k < len(pyp) else None, a) for k, a in enumerate(e.args)]
+        kw = {k.arg: ev(k.arg, k.value) for k in e.keywords}
+        return args, kw
+
     def arg_or_str(self, a, ctx, pre, cond):
         if isinstance(a, ast.Constant) and isinstance(a.value, str):
             return ("", "Str")
@@ -2282,8 +2473,22 @@ class FnTranslator:
             return ("", "Str")
         return self.expr(a, ctx, pre, cond)
 
-    def helper_call(self, e, h: dict, args: list, kw: dict, ctx, pre, cond, want_raw):
-        """h: {'lean','py_params':[...],'pass':[...],'ret','raises','arg_types'?}"""
+    def helper_call(self, e, h, args: list, kw: dict, ctx, pre, cond, want_raw):
+        """h: {'lean','py_params':[...],'pass':[...],'ret','raises','arg_types'?}, or a list of such alternatives
+        (overloads of a hand-mapped operator, e.g. Instant - Duration and Instant - Instant): the one whose declared
+        argument types fit the evaluated arguments"""
+        if isinstance(h, list):
+            fits = []
+            for alt in h:
+                bound_ = dict(zip(alt["py_params"], args))
+                bound_.update(kw)
+                wt = alt.get("arg_types", {})
+                if len(args) <= len(alt["py_params"]) and all(p_ in bound_ and (bound_[p_][1] == parse_type(wt.get(p_, "Int"))
+                                                                                 or (bound_[p_][1] == "Prop" and wt.get(p_) == "Bool")) for p_ in alt["pass"]):
+                    fits.append(alt)
+            if len(fits) != 1:
+                self.bad(e, f"{len(fits)} alternatives of an overloaded helper fit the argument types")
+            h = fits[0]
         pyp = h["py_params"]
         if len(args) > len(pyp):
             self.bad(e, "too many arguments for helper")
@@ -2383,6 +2588,15 @@ class FnTranslator:
                     and declared[c.pyparams[0]] != receiver[1]:
                 why.append(f"{c.lean_name}: receiver type mismatch")
                 continue
+            if not constructing and c.kind in ("method", "property"):
+                # a specialisation with a structure receiver serves calls on a value, one with an erased receiver calls on the erased self
+                has_recv = c.pyparams[0] in declared
+                if receiver is not None and not has_recv:
+                    why.append(f"{c.lean_name}: erased receiver, called on a value")
+                    continue
+                if receiver is None and has_recv and ctx.vars.get("self") != declared[c.pyparams[0]]:
+                    why.append(f"{c.lean_name}: needs a receiver value")
+                    continue
             fits.append(c)
         if not fits:
             self.bad(e, "no translated specialisation accepts this call: " + "; ".join(why))
@@ -2516,7 +2730,10 @@ class Emitter:
             head = f"def {t.lean_name} {params} : R {rty} := do".replace("  ", " ")
         else:
             head = f"def {t.lean_name} {params} : {rty} :=".replace("  ", " ")
-        lines = self.emit_loops() + doc + [head]
+        tabs = []
+        for name, lit in getattr(t, "tables", []):
+            tabs += [f"/-- a table of `{where}`, evaluated from the source -/", f"def {name} : List Int := {lit}", ""]
+        lines = tabs + self.emit_loops() + doc + [head]
         lines += self.block(t.body_ir, 1, t.raises)
         return lines
 
@@ -2571,6 +2788,12 @@ class Emitter:
                     out.append(f"{pad}else")
                     out += self.block(cur[3], ind + 1, monadic)
                     break
+            elif k == "optmatch":
+                out.append(f"{pad}match {n[1]} with")
+                out.append(f"{pad}| some {n[2]} =>")
+                out += self.block(n[3], ind + 1, monadic)
+                out.append(f"{pad}| none =>")
+                out += self.block(n[4], ind + 1, monadic)
             elif k == "optret":
                 out.append(f"{pad}match {n[1]} with")
                 out.append(f"{pad}| some v' => .ok v'")
